@@ -24,6 +24,7 @@ def main():
     ap.add_argument("--tier", default="quick")
     ap.add_argument("--only", default=None)
     ap.add_argument("--in-place", action="store_true")
+    ap.add_argument("--props", default=None, help="comma-separated: run only these properties of each case")
     a = ap.parse_args()
     global REPO
     if not a.in_place:
@@ -40,6 +41,10 @@ def main():
             continue
         meta = json.load(open(os.path.join(d, "meta.json")))
         props = meta.get("properties") or [meta["property"]]
+        if a.props:
+            props = [p for p in props if p in a.props.split(",")]
+            if not props:
+                continue
         expect = meta.get("expect", "violation")
         # evidence files describe runs on the unchanged tree: keep them out of mutant runs
         import shutil, tempfile
